@@ -199,14 +199,14 @@ def run(ctx, chk):
         want_ev = liftx.expected()
         got_ev = h.events
         names = ["type with result id -> types.append_id", "constant with result id -> constants.append_id",
-                 "type referring to an earlier type and constant -> types.append_id after both", "function definition lifted",
+                 "type referring to an earlier type and constant -> types.append_id after both", "function type -> types.append_id", "function definition lifted",
                  "result-producing non-phi instruction -> ops.append", "op info (token, type of the result type)", "block appended with phi argument types and the last instruction as terminator",
                  "result-producing instruction of the second block -> ops.append", "its op info", "second block appended without arguments (it has no phi)",
                  "second function definition lifted", "its block appended to a new block storage"]
         for k, (nm, w) in enumerate(zip(names, want_ev)):
             g = got_ev[k] if k < len(got_ev) else None
             chk.check(R2, g == w, "convert:event %d (%s)" % (k, nm), "on the abstract module the walk performs %s, expected %s" % (str(g)[:220], str(w)[:220]), WC,
-                      key="C18:convert:event%d" % k, sample=str(w)[:200] if k == 6 else None)
+                      key="C18:convert:event%d" % k, sample=str(w)[:200] if k == 7 else None)
         chk.check(R2, len(got_ev) == len(want_ev), "convert:no-other-effects", "the walk performs %d storage effects, expected %d: %s" % (len(got_ev), len(want_ev), [e_[:3] for e_ in got_ev]), WC,
                   key="C18:convert:extra")
         ok = isinstance(r, tuple) and r[0] == "ok" and isinstance(r[1], tuple) and r[1][0] == "struct" and r[1][1] == "Module"
